@@ -37,6 +37,7 @@ def main():
         per_path_s=ob.per_path(tier),
         stop_on_refute=ob.stop_on_refute,
         seed=seed,
+        traced=getattr(ob, "traced", True),
     )
     res.update(module=modname, obligation=obname, shard=int(shard_idx), params=params, tier=tier,
                encoded_modules=sorted(dehash.LOADED), wall_s=round(time.time() - t0, 3))
